@@ -157,4 +157,5 @@ def build(S):
 def post(S):
     from bounded import gridrun
 
-    gridrun.run(S, ["psi_on_flux_surface", "psi_vs_analytic"], "hypnotoad.core.mesh:MeshRegion.fillRZ", name="psi residual at every grid point of generated grids")
+    cfgs = (gridrun.quick_set() if S.tier == "quick" else gridrun.thorough_set()) + [pair[1] for pair in gridrun.worker_copy_pairs(S.tier)[:2]]
+    gridrun.run(S, ["psi_on_flux_surface", "psi_vs_analytic"], "hypnotoad.core.mesh:MeshRegion.fillRZ", cfgs=cfgs, name="psi residual at every grid point of generated grids (incl. non-orthogonal grids generated with the data flow of worker processes)")
